@@ -5,9 +5,10 @@
     applied to (orthogonal eigenvector matrix, A V = V diag(w), w ascending) — the same predicate is
     evaluated numerically on numpy's answer in every correspondence case.
     Part A: any field (no axioms).  Part B: real numbers (order: phase convention, frame uniqueness). *)
-From Coq Require Import List Bool ZArith Reals QArith.
+From Coq Require Import List Bool ZArith Reals QArith Lra.
 Require Import QV.Common.Outcome QV.Common.Geo3 QV.Common.Geo3Facts QV.Common.Geo3Sum QV.Common.Geo3R QV.Common.Geo3Q.
-Require Import QV.Gen.Inertia QV.Model.Orient QV.Proofs.Orient QV.Proofs.OrientR QV.Proofs.OrientUniq.
+Require Import QV.Gen.Inertia QV.Model.Orient QV.Proofs.Orient QV.Proofs.OrientR QV.Proofs.OrientUniq QV.Proofs.OrientGen QV.Proofs.OrientDeg.
+Require Import QV.Common.Geo3Loop QV.Gen.OrientBody.
 Import ListNotations.
 
 (** * Part A: any field *)
@@ -47,6 +48,22 @@ Theorem C16_masses_untouched : forall (K : Fops) eigh (atoms r : list (watom K))
   orient_atoms K eigh atoms = Ok r -> map snd r = map snd atoms.
 Proof. intros K. apply (orient_masses K). Qed.
 
+(** the body of Molecule._orient_molecule_internal as translated from the source (Gen/OrientBody.v: np.average with
+    self.masses as weights, in-place shift, tensor, eigh, np.dot, and the EAGER phase loop with in-place column flips,
+    early exit, tests and threshold taken from the source text; no other attribute of the molecule is read) computes,
+    for every molecule, exactly the geometry of the model that all other theorems are about *)
+Theorem C16_generated_body_is_model : forall (K : Fops), is_field K ->
+  forall (eigh : mat3 K -> vec3 K * mat3 K) (atoms : list (watom K)),
+  orient_internal_gen K eigh (map fst atoms) (map snd atoms)
+  = obind (orient_atoms K eigh atoms) (fun r => Ok (map fst r)).
+Proof. intros K Kf. apply (orient_gen_is_model K Kf). Qed.
+
+(** in particular the eager in-place phase loop of the source equals recording the signs and applying them afterwards *)
+Theorem C16_eager_phase_loop_is_deferred : forall (K : Fops), is_field K -> forall (nz : K) (g : list (vec3 K)),
+  eager_phase_loop K (fun val => fltb K (py_abs K val) nz) (fun val => fltb K val (fofZ K 0)) (fofZ K (-1)) g
+  = apply_phase K nz g.
+Proof. intros K Kf. apply (eager_loop_is_apply_phase K Kf). Qed.
+
 (** * Non-vacuity (Q instance, exact): six unit masses at (+-1,0,0), (0,+-2,0), (0,0,+-3), turned by the
     rational rotation (3-4-5 about x) and shifted; eigh's exact answer is w = (10, 20, 26) with
     eigenvectors rot^T [e_z e_y e_x]; the model puts the molecule back on the axes, lightest axis first *)
@@ -66,6 +83,29 @@ Example C16_ex_run :
   /\ match orient_atoms QK (fun _ => ((10, 20, 26)%Q, ((0, 0, 1), (0, 1, 0), (1, 0, 0))%Q)) ex_base with
      | Ok r => rows_close 0 (map fst r) [(0, 0, 1); (0, 0, -1); (0, 2, 0); (0, -2, 0); (3, 0, 0); (-3, 0, 0)]%Q
      | Err _ => false
+     end = true.
+Proof. repeat split; vm_compute; reflexivity. Qed.
+
+(** handedness is NOT preserved: a chiral molecule (point group D2: a tetrahedron of four atoms inside six atoms at
+    +-1, +-2, +-3 on the axes) and its mirror image z -> -z have opposite signed volumes, both meet the eigh specification with
+    the same eigenvectors, and are oriented to identical coordinates (see C16_mirror_image_same_frame for the general fact) *)
+Definition ex_chiral : list (watom QK) :=
+  [((1, 1, 1), 1); ((-1, -1, 1), 1); ((1, -1, -1), 1); ((-1, 1, -1), 1);
+   ((1, 0, 0), 1); ((-1, 0, 0), 1); ((0, 2, 0), 1); ((0, -2, 0), 1); ((0, 0, 3), 1); ((0, 0, -3), 1)]%Q.
+Definition ex_mirror : list (watom QK) := map (fun a : watom QK => ((vx (fst a), vy (fst a), - vz (fst a))%Q, snd a)) ex_chiral.
+Definition signed_volume (l : list (watom QK)) : Q :=
+  match map fst l with
+  | p0 :: p1 :: p2 :: p3 :: _ => triple (vsub p1 p0) (vsub p2 p0) (vsub p3 p0)
+  | _ => 0
+  end.
+Definition ex_eigh : mat3 QK -> vec3 QK * mat3 QK := fun _ => ((18, 28, 34)%Q, ((0, 0, 1), (0, 1, 0), (1, 0, 0))%Q).
+Example C16_ex_chirality_inverted :
+  Qeq_bool (signed_volume ex_chiral) (-16) = true /\ Qeq_bool (signed_volume ex_mirror) 16 = true
+  /\ eigh_ok_b (inertia_tensor QK (centre QK ex_chiral)) (18, 28, 34)%Q (snd (ex_eigh (mident QK))) = true
+  /\ eigh_ok_b (inertia_tensor QK (centre QK ex_mirror)) (18, 28, 34)%Q (snd (ex_eigh (mident QK))) = true
+  /\ match orient_atoms QK ex_eigh ex_chiral, orient_atoms QK ex_eigh ex_mirror with
+     | Ok r1, Ok r2 => rows_close 0 (map fst r1) (map fst r2) && Qeq_bool (signed_volume r1) (signed_volume r2)
+     | _, _ => false
      end = true.
 Proof. repeat split; vm_compute; reflexivity. Qed.
 
@@ -127,6 +167,45 @@ Proof.
   apply (signs_cols_readable u); assumption.
 Qed.
 
+(** symmetric tops (no assumption on the moments): the two oriented geometries differ by ONE orthogonal matrix Q that
+    intertwines the two spectra, diag(w1) Q = Q diag(w2) - so Q only mixes axes belonging to equal moments (a rotation /
+    reflection inside the degenerate eigenspaces).  Orienting twice is the case Rm = V1 S1. *)
+Theorem C16_frame_unique_up_to_eigenspace : forall eigh1 eigh2 (atoms : list (watom RK)) (Rm : mat3 RK) (tau : vec3 RK) (r1 r2 : list (watom RK)),
+  orthogonal Rm -> orthogonal (mtrans Rm) -> total_mass RK atoms <> 0 ->
+  let T1 := inertia_tensor RK (centre RK atoms) in
+  let atoms2 := move_atoms RK Rm tau atoms in
+  let T2 := inertia_tensor RK (centre RK atoms2) in
+  eigh_ok RK T1 (eigh1 T1) -> eigh_ok RK T2 (eigh2 T2) ->
+  orient_atoms RK eigh1 atoms = Ok r1 -> orient_atoms RK eigh2 atoms2 = Ok r2 ->
+  let l1 := fst (eigh1 T1) in let l2 := fst (eigh2 T2) in
+  exists Q : mat3 RK,
+    orthogonal Q /\ orthogonal (mtrans Q)
+    /\ mmul (mdiag RK (vx l1) (vy l1) (vz l1)) Q = mmul Q (mdiag RK (vx l2) (vy l2) (vz l2))
+    /\ map fst r2 = map (fun x => vm x Q) (map fst r1).
+Proof. exact frame_unique_degenerate. Qed.
+
+(** orientation does not preserve handedness: the mirror image (z -> -z, an orthogonal map of determinant -1) of a
+    molecule with distinct moments is oriented to the same coordinates as the molecule itself *)
+Theorem C16_mirror_image_same_frame : forall eigh1 eigh2 (atoms : list (watom RK)) (r1 r2 : list (watom RK)),
+  total_mass RK atoms <> 0 ->
+  let T1 := inertia_tensor RK (centre RK atoms) in
+  let atoms2 := move_atoms RK mirror_z (0, 0, 0) atoms in
+  let T2 := inertia_tensor RK (centre RK atoms2) in
+  eigh_ok RK T1 (eigh1 T1) -> eigh_ok RK T2 (eigh2 T2) ->
+  vx (fst (eigh1 T1)) < vy (fst (eigh1 T1)) -> vy (fst (eigh1 T1)) < vz (fst (eigh1 T1)) ->
+  orient_atoms RK eigh1 atoms = Ok r1 -> orient_atoms RK eigh2 atoms2 = Ok r2 ->
+  same_or_tiny_opposite (noise RK) (map vx (map fst r1)) (map vx (map fst r2))
+  /\ same_or_tiny_opposite (noise RK) (map vy (map fst r1)) (map vy (map fst r2))
+  /\ same_or_tiny_opposite (noise RK) (map vz (map fst r1)) (map vz (map fst r2)).
+Proof.
+  intros eigh1 eigh2 atoms r1 r2 HM T1 atoms2 T2 K1 K2 D01 D12 H1 H2.
+  destruct mirror_z_improper as [O [O' _]].
+  apply (C16_frame_unique eigh1 eigh2 atoms mirror_z (0, 0, 0) r1 r2 O O' HM K1 K2 D01 D12 H1 H2).
+Qed.
+
+Example C16_ex_mirror_is_improper : orthogonal mirror_z /\ orthogonal (mtrans mirror_z) /\ mdet mirror_z = -1.
+Proof. destruct mirror_z_improper as [A [B C]]. split; [exact A|]. split; [exact B|]. rewrite C. lra. Qed.
+
 Example C16_ex_R_field : is_field RK.
 Proof. exact RK_field. Qed.
 
@@ -135,7 +214,11 @@ Print Assumptions C16_com_at_origin.
 Print Assumptions C16_inertia_transforms.
 Print Assumptions C16_inertia_diagonal_ascending.
 Print Assumptions C16_masses_untouched.
+Print Assumptions C16_generated_body_is_model.
+Print Assumptions C16_eager_phase_loop_is_deferred.
 Print Assumptions C16_phase_convention.
 Print Assumptions C16_phase_convention_orient.
 Print Assumptions C16_frame_unique.
 Print Assumptions C16_orient_idempotent.
+Print Assumptions C16_frame_unique_up_to_eigenspace.
+Print Assumptions C16_mirror_image_same_frame.
